@@ -67,6 +67,8 @@ Spec == Init /\ [][Next]_vars
 DestIntact == Mode = "tmpfile" => (dest = "prev" /\ pc # "finished") \/ (dest = "new" /\ pc = "finished")
 \* in-place mode: a re-run completes, and fetches only chunks of positions that were not valid after the death
 RefetchBound == run = 2 => fetched \subseteq {IdAt[c] : c \in Pos \ validAtCrash}
+\* (with one worker, positions in index order: a chunk is fetched only at the first position that holds it -- checked on the
+\* records of the real re-runs in Trace_ChunkWrite, where the order is known)
 RerunCompletes == (run = 2 /\ pc = "finished") => valid = Pos /\ dest = "new"
 \* reachability witness: a re-run that fetched something and kept something
 RerunBoth == ~(run = 2 /\ pc = "finished" /\ fetched # {} /\ validAtCrash # {})
